@@ -246,7 +246,7 @@ ListOf(f, n) == [k \in 1..n |-> f[k - 1]]
 
 Obs(st, t) ==
   LET E == FLAVOUR = "enumerable" IN
-  [owners   |-> {[id |-> i, o |-> OwnerOfImpl(st, i)] : i \in Ids},
+  [owners   |-> {[id |-> i, o |-> OwnerOfImpl(st, i), u |-> IF OwnerOfImpl(st, i) = NoOne THEN "fail" ELSE "ok"] : i \in Ids},
    bal      |-> st.bal,
    appr     |-> {[id |-> i, who |-> GetApproved(st, i, t)] : i \in Ids},
    opall    |-> [a \in Acct |-> [b \in Acct |-> IsOperator(st, a, b, t)]],
